@@ -11,6 +11,16 @@ From OrdV Require Import Base.Prelude Generated Codec.Varint Codec.Script Codec.
 (* "starts with OP_RETURN OP_13", on bytes *)
 Definition starts_with_magic (s : list N) : Prop := exists r, s = OP_RETURN :: MAGIC_NUMBER :: r.
 
+(* ---- 0. the representation of Message.fields ----
+   decipher_q is decipher with the fields kept, literally as in the code, in a
+   map tag -> queue (push_back in stream order; Tag::take = get_mut, check the
+   first N values, drain, remove the queue when empty; keys().any(even)).
+   It computes the same function as decipher, whose fields are the list of
+   (tag, value) pairs.  The correspondence run executes decipher_q on every
+   transaction case (wire op 0) and decipher on every round-trip case (op 1). *)
+Theorem C25_fields_representation : forall outs : list (list N), decipher_q outs = decipher outs.
+Proof. exact decipher_q_eq. Qed.
+
 (* ---- 1. round trip ----
    WF n r (Runestone_proofs.wf_runestone, a boolean) is "what ord enciphers" for a
    transaction with n outputs:
@@ -204,6 +214,7 @@ Proof.
   repeat split; vm_compute; reflexivity.
 Qed.
 
+Print Assumptions C25_fields_representation.
 Print Assumptions C25_decipher_encipher.
 Print Assumptions C25_sort_edicts_spec.
 Print Assumptions C25_encipher_total.
